@@ -160,6 +160,27 @@ def build_program(case):
         prog["aliases"].append({"name": name, "mod": nodes[u]["mod"], "target": t, "partial": True})
         nodes[u]["calls"].append({"t": t, "form": "alias", "alias": name})
         out["obs"]["programs_with_a_partial_object_around_a_helper"] += 1
+    # a memento function that was defined twice (the name <function>_old still refers to the earlier definition, which
+    # uses no helper): a function of its module calls both
+    if case["idx"] % 4 == 3:
+        cands = [(u, t) for u in range(len(nodes)) for t in range(u + 1, len(nodes))
+                 if nodes[u]["kind"] == "memento" and nodes[t]["kind"] == "memento" and nodes[u]["mod"] == nodes[t]["mod"]
+                 and nodes[t]["mod"] in ("a", "b") and nodes[t]["version"] is None and not nodes[t].get("prev")]
+        cands = [(u, t) for u, t in cands if not nodes[u].get("only_builtin_named_helper") and nodes[u].get("cbdefault") != t
+                 and not nodes[t].get("only_builtin_named_helper")]
+        if cands:
+            u, t = rng.choice(cands)
+            nodes[t]["prev"] = {"const": rng.randint(1, 9)}
+            if not any(nodes[c["t"]]["kind"] == "plain" and nodes[c["t"]]["mod"] == nodes[t]["mod"] for c in nodes[t]["calls"]):
+                # (the current definition uses a plain helper of its module, the earlier one none)
+                nodes.append({"name": "hq%d" % len(nodes), "mod": nodes[t]["mod"], "kind": "plain", "version": None, "params": [["x", None]],
+                              "kwonly": [], "const": rng.randint(1, 9), "tconst": None, "sconst": None, "op": "+", "nested": None,
+                              "reads": [], "calls": [], "wrap_param": None, "swap": False})
+                nodes[t]["calls"].append({"t": len(nodes) - 1, "form": "bare"})
+            if not any(c["t"] == t and c["form"] == "bare" for c in nodes[u]["calls"]):
+                nodes[u]["calls"].append({"t": t, "form": "bare"})
+            nodes[u]["calls"].append({"t": t, "form": "old"})
+            out["obs"]["programs_with_a_memento_function_defined_twice"] += 1
     # a list variable of module a that a memento function of module b reads is filled in place by a third module (a
     # plug-in registering itself): whether that module is imported before or after the function's module must not matter
     if case["idx"] % 3 == 1 and any(nd["mod"] == "b" and nd["kind"] == "memento" for nd in nodes):
@@ -179,6 +200,9 @@ def build_program(case):
 
 def run_case(case):
     prog, nodes, lasts, rng, out = build_program(case)
+    if out["obs"].get("programs_with_a_memento_function_defined_twice"):
+        # (which of two names of one entity is met first follows the hash seed: more seeds for these programs)
+        case = dict(case, hashseeds=max(case["hashseeds"], 8))
     fns = [[nd["mod"], nd["name"]] for nd in prog["nodes"] if nd["kind"] == "memento"]
 
     def fail(sig, msg):
